@@ -552,8 +552,8 @@ def smin(*args, key=None, default=None):
     if len(args) == 1:
         args = tuple(args[0])
     if key is not None or not any(is_sym(a) for a in args):
-        if key is not None and has_sym(args):
-            raise Unsupported("min with key on symbolic")
+        if key is not None and has_sym([key(a) for a in args]):
+            raise Unsupported("min with a symbolic key")
         return min(args) if key is None else min(args, key=key)
     r = args[0]
     for a in args[1:]:
@@ -565,8 +565,8 @@ def smax(*args, key=None, default=None):
     if len(args) == 1:
         args = tuple(args[0])
     if key is not None or not any(is_sym(a) for a in args):
-        if key is not None and has_sym(args):
-            raise Unsupported("max with key on symbolic")
+        if key is not None and has_sym([key(a) for a in args]):
+            raise Unsupported("max with a symbolic key")
         return max(args) if key is None else max(args, key=key)
     r = args[0]
     for a in args[1:]:
